@@ -84,7 +84,7 @@ def solve_shape(shape, v0, v1, x0, x1, k, rlo, real):
 
 
 @st.composite
-def dep_spec(draw, family, pname, x0, x1, nontrivial=True, saturating_only=False):
+def dep_spec(draw, family, pname, x0, x1, nontrivial=True, saturating_only=False, poly_ok=False):
     rlo, rhi = fam.PARAM_RANGE[family][pname]
     real = (family, pname) in fam.REAL_PARAMS
     log = not real
@@ -113,6 +113,8 @@ def dep_spec(draw, family, pname, x0, x1, nontrivial=True, saturating_only=False
             cands = ["logistics4"]
         elif v1 > v0:
             cands = ["logistics4", "exp3_sat", "asymdecrease3"]
+            if poly_ok:  # polynomial growth stays finite for every x the integrators visit
+                cands += ["power3", "linear2", "poly3"]
         else:
             cands = ["logistics4", "exp3", "asymdecrease3"]
         shape = draw(st.sampled_from(cands))
@@ -136,7 +138,7 @@ def dep_spec(draw, family, pname, x0, x1, nontrivial=True, saturating_only=False
 
 
 @st.composite
-def conditional_level(draw, family, cond_idx, x0, x1, allow_chain=True, nontrivial=True, saturating_only=False):
+def conditional_level(draw, family, cond_idx, x0, x1, allow_chain=True, nontrivial=True, saturating_only=False, poly_ok=False):
     names = list(fam.PARAM_RANGE[family].keys())
     # every non-empty subset may be dependent
     k = draw(st.integers(1, len(names)))
@@ -146,7 +148,7 @@ def conditional_level(draw, family, cond_idx, x0, x1, allow_chain=True, nontrivi
     fixed = {n: plausible[n] for n in names if n not in dep_names}
     dependent = {}
     for n in dep_names:
-        dependent[n] = draw(dep_spec(family, n, x0, x1, nontrivial=nontrivial, saturating_only=saturating_only))
+        dependent[n] = draw(dep_spec(family, n, x0, x1, nontrivial=nontrivial, saturating_only=saturating_only, poly_ok=poly_ok))
     # chained dependence function (alpha3 style): scale parameter depends on the shape's function
     if (
         allow_chain
@@ -178,6 +180,7 @@ def model_spec(
     allow_chain=True,
     allow_normal_conditioner=True,
     nontrivial=True,
+    bounded_shapes=False,
 ):
     n = draw(st.sampled_from(list(n_dims)))
     leafs = list(leaf_families or TEMPLATE_FAMILIES)
@@ -212,7 +215,7 @@ def model_spec(
                 x0 = 0.0  # non-negative conditioner: dependence functions are evaluated from 0 on
             if not (x1 > x0 + 1e-6):
                 x1 = x0 + 1.0
-            lvl = draw(conditional_level(family, co[i], float(x0), float(x1), allow_chain=allow_chain, nontrivial=nontrivial, saturating_only=is_cond))
+            lvl = draw(conditional_level(family, co[i], float(x0), float(x1), allow_chain=allow_chain, nontrivial=nontrivial, saturating_only=is_cond or bounded_shapes, poly_ok=bounded_shapes and not is_cond))
         spec.append(lvl)
         rng = refmodel.approx_range(spec)
     return spec
